@@ -1,7 +1,7 @@
 (* Hist2_proofs.v -- C01 over whole histories WITH node deletion, for one incarnation of the controller behind a
    well-behaved informer: nodes are created without pod CIDRs under names used once, may be relabelled and
-   deleted at any time; deletions are delivered in order as ordinary delete notifications; node work items are
-   taken from the queue (no worker runs on a stale copy of the node).  Everything else is arbitrary: any
+   deleted at any time; deletions are delivered in order as ordinary delete notifications; node work items may run on
+   arbitrarily stale copies of the node.  Everything else is arbitrary: any
    ClusterCIDRs (overlapping, nested, identical ranges, any block sizes, dual stack) created and deleted at any
    time, any interleaving of deliveries, resyncs and work items, stale ClusterCIDR work items, any pattern of
    failed and timed-out writes, a crash at any point.
@@ -36,7 +36,7 @@ Record GInv (w : world) : Prop := {
   g_nodel : forall a, In a (w_nodes w) -> an_deleting a = false;
   g_feed_nd : forall e, In e (w_nfeed w) -> n_deleting (nev_node e) = false;
   g_cache_nd : forall n, In n (w_ncache w) -> n_deleting n = false;
-  g_fetch : w_nfetch w = [];
+  g_fetch : forall wk key n, In (wk, (key, Some n)) (w_nfetch w) -> n_deleting n = false;
   g_dead : forall x, In (NDel x) (w_nfeed w) -> ~ In (n_name x) (map an_name (w_nodes w));
   g_dead_nodup : NoDup (dead_names (w_nfeed w));
   g_disj : forall n1 c1 n2 c2, holder w n1 c1 -> holder w n2 c2 -> n1 <> n2 -> overlapb c1 c2 = false;
@@ -53,7 +53,7 @@ Ltac gsplit I :=
 
 Definition tame_op (o : op) : Prop :=
   match o with
-  | UMarkNodeDeleting _ | Construct _ _ _ | DeliverNodeTombstone | RelistNodes | FetchNode _ _ | RunNode _ _ => False
+  | UMarkNodeDeleting _ | Construct _ _ _ | DeliverNodeTombstone | RelistNodes => False
   | UCreateNode _ _ cs => cs = []
   | UCreateCC obj => good_obj obj
   | _ => True
@@ -83,7 +83,7 @@ Proof.
   - intros a [].
   - intros e [].
   - intros n [].
-  - reflexivity.
+  - intros wk key n [].
   - intros x [].
   - apply NoDup_nil.
   - intros n1 c1 n2 c2 [(a & [] & _)|(x & cn & [] & _)].
@@ -95,7 +95,7 @@ Proof.
   intros I. pose proof (crashed_winv w (g_w w I)) as W'. gsplit I; try assumption.
   - intros e [].
   - intros n [].
-  - reflexivity.
+  - intros wk key n [].
   - intros x [].
   - apply NoDup_nil.
   - intros n1 c1 n2 c2 H1 H2. apply Gdj; [destruct H1 as [H1|(x & cn & [] & _)]; left; exact H1|destruct H2 as [H2|(x & cn & [] & _)]; left; exact H2].
@@ -233,7 +233,7 @@ Proof.
   - rewrite E. exact c.
   - intros e0 [].
   - intros n [].
-  - reflexivity.
+  - intros wk key n [].
   - intros x [].
   - apply NoDup_nil.
   - intros n1 c1 n2 c2 H1 H2. apply i.
@@ -490,6 +490,20 @@ Section Hist2.
       destruct (w_synced w); [|exact I]. cbn [fst] in *.
       match goal with |- GInv (deliver_all_c ?w0 ?es) => destruct (deliver_all_c_same es w0) as (A & B & C & D & E) end.
       apply (ginv_same w); assumption.
+    - (* FetchNode: a worker takes a copy of the cached node; it may run on it much later *)
+      cbn [fst] in *. pose proof I as I0. gsplit I; try assumption.
+      intros wk k n [E|Hin].
+      + inversion E; subst. match goal with H : find_node _ _ = Some n |- _ => apply find_node_in in H; exact (Gca n H) end.
+      + apply filter_In in Hin. destruct Hin as [Hin _]. eapply Gft. exact Hin.
+    - (* RunNode *)
+      destruct (find (fun x => fst x =? w0) (w_nfetch w)) as [[wk [key cached]]|] eqn:Ef; [|exact I].
+      apply find_some in Ef. destruct Ef as [Hin _].
+      apply run_node_sync_ginv.
+      + pose proof I as I0. gsplit I; try assumption.
+        * pose proof (g_w w I0) as Ww. destruct Ww as [a1 b1 c1 d1 e1 f1 g1 h1 i1]. constructor; cbn; try assumption.
+          intros wk' k n Hi. apply filter_In in Hi. destruct Hi as [Hi _]. eapply g1. exact Hi.
+        * intros wk' k n Hi. apply filter_In in Hi. destruct Hi as [Hi _]. eapply Gft. exact Hi.
+      + intros n E. subst cached. split; [eapply (wi_nfetch w (g_w w I)); exact Hin|eapply (g_fetch w I); exact Hin].
     - (* FetchCC *) apply (ginv_same w); try reflexivity; assumption.
     - (* RunCC *)
       destruct (find (fun x => fst x =? w0) (w_cfetch w)) as [[wk [key cached]]|] eqn:Ef; [|exact I].
@@ -636,6 +650,9 @@ Section Hist2.
       match goal with |- names_ok w (deliver_all_c ?w0 ?es) _ => destruct (deliver_all_c_same es w0) as (A & B & _) end.
       apply names_ok_same; assumption.
     - apply names_ok_same; reflexivity.
+    - destruct (find (fun x => fst x =? w0) (w_nfetch w)) as [[wk [key cached]]|]; [|apply names_ok_refl].
+      match goal with |- names_ok w (fst (run_node_sync po lab ?w1 ?c ?k ?o)) _ => pose proof (run_node_sync_names w1 c k o) as H end. exact H.
+    - apply names_ok_same; reflexivity.
     - destruct (find (fun x => fst x =? w0) (w_cfetch w)) as [[wk [key cached]]|]; [|apply names_ok_refl].
       match goal with |- names_ok w (fst (run_cc_sync ?w1 ?k ?c ?o)) _ => pose proof (run_cc_sync_names w1 k c o) as H end. exact H.
     - destruct (w_ctl w) as [m|]; [|apply names_ok_refl]. destruct (q_ready (w_nq w)) as [|key rest]; [apply names_ok_refl|].
@@ -701,7 +718,7 @@ Section Hist2.
       constructor; cbn; [assumption|assumption|constructor|constructor|constructor|constructor|intros; contradiction|intros; contradiction|exact M].
     - intros e [].
     - intros n [].
-    - reflexivity.
+    - intros wk key n [].
     - intros x [].
     - apply NoDup_nil.
     - intros n1 c1 n2 c2 Hh. destruct (Hnoh _ _ Hh).
